@@ -43,13 +43,18 @@ def violate(rep, **kw):
     rep.violate(**kw)
 
 
-def inp_of(spec, a, b, n, atol):
-    return dict(f=spec, a=C.fhex(a), b=C.fhex(b), n=int(n), atol=None if atol is None else C.fhex(atol))
+def inp_of(spec, a, b, n, atol, prime=None):
+    d = dict(f=spec, a=C.fhex(a), b=C.fhex(b), n=int(n), atol=None if atol is None else C.fhex(atol))
+    if prime is not None:
+        # call history: the same function object, interval and degree were solved first with this (looser) atol
+        d["primed_with_atol"] = C.fhex(prime)
+    return d
 
 
 def case_of(inp):
     return (inp["f"], C.unhex(inp["a"]), C.unhex(inp["b"]), int(inp["n"]),
-            None if inp["atol"] is None else C.unhex(inp["atol"]))
+            None if inp["atol"] is None else C.unhex(inp["atol"]),
+            None if inp.get("primed_with_atol") is None else C.unhex(inp["primed_with_atol"]))
 
 
 def snippet(inp):
@@ -79,7 +84,40 @@ def gen_cases(rng, tier):
         if cs[-1] == 0.0:
             cs[-1] = 1.0
         cases.append((G.spec("poly", *cs), a, a + w, n, G.gen_atol(rng)))
-    return cases
+    # minimax error well above 1 (large |f|, low degree): absolute tolerances must stay absolute there
+    for _ in range(24 if tier == "quick" else 300):
+        n = rng.randint(0, 4)
+        r = rng.random()
+        if r < 0.4:
+            l = rng.choice([1.0, rng.uniform(0.8, 2.5)]) * rng.choice([1.0, 1.0, -1.0])
+            w = rng.choice([10.0, rng.uniform(4.0, 10.0)])
+            a = (rng.uniform(-2.0, 5.0 - w / 2) if l > 0 else rng.uniform(-5.0, 2.0 - w / 2))
+            a = min(max(a, -5.0), 5.0)
+            sp = G.spec("exp", l)
+        elif r < 0.8:
+            k = rng.choice([3.5, 4.5, 5.5, rng.uniform(3.0, 6.0)])
+            if k == int(k):
+                k += 0.25
+            a = G.log_uniform(rng, 1e-3, 1.0)
+            w = rng.uniform(6.0, 9.9 - a)
+            sp = G.spec("pow", k)
+        else:
+            a = rng.uniform(-5.0, 5.0)
+            sp = G.spec("rec", -a + G.log_uniform(rng, 1e-3, 1e-2))
+            w = G.log_uniform(rng, 0.1, 10.0)
+        cases.append((sp, a, a + w, n, G.log_uniform(rng, 1e-10, 1e-6)))
+    # call history: a fraction of all cases is preceded by a call with the same function object, interval and degree but a
+    # looser tolerance (a result must not depend on what was solved before)
+    out = []
+    for i, c in enumerate(cases):
+        prime = None
+        if i % 4 == 3:
+            at = G.atol_value(c[4])
+            prime = rng.choice([1e-6, 1e-3, 1.0])
+            if prime <= 10 * at:
+                prime = 1e3 * at
+        out.append(c + (prime,))
+    return out
 
 
 def sqrt_bracket(a, b):
@@ -106,9 +144,18 @@ def run(seed, tier, replay=None):
 
     reqs, meta = [], []
     err_by_case = {}
-    for ci, (spec, a, b, n, atol) in enumerate(cases):
+    for ci, (spec, a, b, n, atol, prime) in enumerate(cases):
         f = G.make_f(spec)
-        inp = inp_of(spec, a, b, n, atol)
+        inp = inp_of(spec, a, b, n, atol, prime)
+        if prime is not None:
+            rep.count("history=primed_with_looser_atol")
+            with warnings.catch_warnings():
+                warnings.simplefilter("ignore")
+                try:
+                    A.remez(f.np, a, b, n, atol=prime)
+                    A.minimax_polynomial_approximation(f.np, a, b, n, atol=prime)
+                except Exception:  # noqa: BLE001  (whatever the priming call does, the call under test is judged on its own)
+                    pass
         at = G.atol_value(atol)
         rep.count("f=" + spec["kind"])
         rep.count("n=%d" % n if n < 10 else "n=%d-%d" % (5 * (n // 5), 5 * (n // 5) + 4))
@@ -131,7 +178,8 @@ def run(seed, tier, replay=None):
         rs = np.asarray(rs, dtype=float)
         ys = np.asarray(ys, dtype=float)
         err, err2 = float(err), float(err2)
-        key = (str(spec), inp["a"], inp["b"], n, inp["atol"])
+        key = (str(spec), inp["a"], inp["b"], n, inp["atol"], inp.get("primed_with_atol"))
+        rep.count("err=" + ("0" if err == 0 else ">=1" if err >= 1 else "1e%d" % int(np.floor(np.log10(err)))))
         err_by_case[ci] = err
         # ---- structure of the reference
         if rs.shape != (n + 2,) or ys.shape != (n + 2,) or not np.all(np.isfinite(rs)):
@@ -288,7 +336,9 @@ def run(seed, tier, replay=None):
                 rep.count("upper=grid+refinement(certificate not found)")
     return rep.result(
         rule="cases (f, a, b, n, atol): f in {x^k (k in (-0.9,6) non-integer incl. half-integers, [a,b] in (0,10]), exp(lx), "
-             "log(x+d), 1/(x+d), polynomials of degree <= n+1}, b-a in [1e-3,10], n in 0..20, atol in {None} u [1e-13,1e-6]; "
+             "log(x+d), 1/(x+d), polynomials of degree <= n+1}, b-a in [1e-3,10], n in 0..20, atol in {None} u [1e-13,1e-6]; a stratum "
+             "with minimax error >= 1 (exp/x^k/reciprocal with large |f|, n <= 4); every 4th case is preceded by a call on the same "
+             "function object, interval and degree with a looser atol (history independence); "
              "each returned result is checked by the verified alternation checker (when err-atol-1e-13 > 0), the grid upper "
              "bound, the continuum certificate (polynomial / half-integer power), exact fit, monotonicity in n; distinct = "
              "distinct (check, case) pairs.",
